@@ -560,7 +560,7 @@ snarf_rrule(const char *s, size_t z)
 					}
 					break;
 				case BY_HOUR:
-					if (LIKELY(tmu <= 24U)) {
+					if (LIKELY(tmu < 24U)) {
 						rr.H = ass_bui31(rr.H, tmu);
 					}
 					break;
